@@ -91,6 +91,12 @@ fn solve_with_clarabel(lp: &LinearModel) -> Result<LpSolution<f64>, SolverError>
             ) {
                 return Err(SolverError::Unbounded);
             }
+            // good_lp also maps AlmostSolved to `Ok`: clarabel stopped at reduced
+            // accuracy and the point may violate the model grossly (it does on
+            // unbounded models), so it must not be returned as a solution.
+            if matches!(solution.inner().status, SolverStatus::AlmostSolved) {
+                return Err(SolverError::DidNotSolve);
+            }
             Ok(())
         },
         |solution, references| {
